@@ -421,3 +421,23 @@ package exec
 //@   loop 1 invariant a1: r.q == old(r.q) && 0 <= r.i && 0 <= r.j && 0 <= r.k && ColMem == old(ColMem) && r.i <= len(r.q)
 //@   loop 1 invariant a2: implies(r.i < len(r.q), r.j <= len(r.q[r.i]))
 //@   loop 1 invariant a3: implies(r.i < len(r.q) && r.j < len(r.q[r.i]), r.k <= r.q[r.i][r.j].len)
+
+// ---- C08: pipelining never crosses a shuffle, a Materialize pragma or a reused result ----
+
+//@ spec func isResultSlice(s bigslice.Slice) bool = hastype(slUnwrap(s), *Result)
+//@ spec func materializes(s bigslice.Slice) bool = hastype(s, bigslice.Pragma) && matPragma(s)
+//@ spec func pipeLink(a, b bigslice.Slice) bool = slNumDep(a) == 1 && !slDep(a, 0).Shuffle && b == slDep(a, 0).Slice && !materializes(b)
+
+//@ func exec.pipeline (slice) (slices)
+//@   requires slice != nil
+//@   ensures  stops-at-result: forall(i, 0, len(slices), !isResultSlice(slices[i]))
+//@   ensures  head: implies(len(slices) > 0, slices[0] == arg0)
+//@   ensures  empty-iff-result: (len(slices) == 0) == isResultSlice(arg0)
+//@   ensures  chain: forall(i, 0, len(slices) - 1, pipeLink(slices[i], slices[i+1]))
+//@   ensures  maximal: implies(len(slices) > 0, let(l, slices[len(slices)-1], slNumDep(l) != 1 || slDep(l, 0).Shuffle || materializes(slDep(l, 0).Slice) || isResultSlice(slDep(l, 0).Slice)))
+//@   ensures  non-nil: forall(i, 0, len(slices), slices[i] != nil)
+//@   modifies nothing
+//@   loop 1 invariant slice != nil && (slices == nil || fresh(slices))
+//@   loop 1 invariant forall(i, 0, len(slices), !isResultSlice(slices[i]) && slices[i] != nil)
+//@   loop 1 invariant implies(len(slices) == 0, slice == arg0) && implies(len(slices) > 0, slices[0] == arg0 && pipeLink(slices[len(slices)-1], slice))
+//@   loop 1 invariant forall(i, 0, len(slices) - 1, pipeLink(slices[i], slices[i+1]))
